@@ -285,7 +285,8 @@ def plan_C04(w):
 
 def c03_corrupt(d):
     # an instance reports another round for one event
-    if d.get("a") == "Instance" and not d["x"]["subset"] and d["x"]["batch"] == 1 and d["o"]["vals"]:
+    if d.get("a") == "Instance" and not d["x"]["subset"] and d["x"]["batch"] == 1 and d["o"]["vals"] \
+            and "faulty" not in d["x"] and not d["o"].get("partial") and not d["o"]["err"]:
         d["o"]["vals"][-1]["r"] += 1
         return True
     return False
@@ -297,10 +298,11 @@ def plan_C03(w):
     run_mc(w, [("hg1", "MC_hg1.cfg", 4, 300), ("hg2q", "MC_hg2q.cfg", 8, 600)] if q else
               [("hg1", "MC_hg1.cfg", 4, 300), ("hg2t", "MC_hg2t.cfg", 14, 1500)])
     if q:
-        kinds = [("ordA", dict(traces=4, n=0, steps=70)), ("ordB", dict(traces=2, n=4, steps=110))]
+        kinds = [("ordA", dict(traces=4, n=0, steps=70)), ("ordB", dict(traces=2, n=4, steps=110)), ("ordF", dict(traces=3, sched="funky"))]
     else:
         kinds = [("ord%d" % i, dict(traces=6, n=0, steps=160, arg="thorough")) for i in range(4)] + \
-                [("ordN4", dict(traces=4, n=4, steps=260, arg="thorough")), ("ordN7", dict(traces=2, n=7, steps=300, arg="thorough"))]
+                [("ordN4", dict(traces=4, n=4, steps=260, arg="thorough")), ("ordN7", dict(traces=2, n=7, steps=300, arg="thorough")),
+                 ("ordF", dict(traces=12, sched="funky", arg="thorough"))]
     traces, sums = drive_all(w, gossip_specs(w, kinds), mode="orders")
     g = [("gsp", dict(traces=3 if q else 10, n=0, steps=100 if q else 220, sched="mix"))]
     t2, s2 = drive_all(w, gossip_specs(w, g))
@@ -490,6 +492,23 @@ def ff_family(w, pid, corrupt, what):
     known = vlib.load_known()
     run_mc(w, [("hg1", "MC_hg1.cfg", 4, 300)])
     traces, sums = drive_all(w, gossip_specs(w, ff_kinds(w, q)), mode="ff")
+    if pid in ("C12", "C14"):
+        # fast-syncing joiners in histories with membership changes: former validators
+        # and later joiners are known to the victim without being in the anchor's set
+        t9, s9 = drive_all(w, gossip_specs(w, [("dynF", dict(traces=3 if q else 8, n=0, steps=330 if q else 500, arg="fastsync"))]), mode="dyn")
+        traces, sums = traces + t9, sums + s9
+    if pid == "C13":
+        # hashgraph level: fresh instances reset from every (other) block of recorded
+        # DAGs - ordinary gossip DAGs and the "funky" one (out-of-order fame, coin rounds)
+        ok = [("rstG", dict(traces=3 if q else 10, n=0, steps=90 if q else 160)),
+              ("rstF", dict(traces=4 if q else 16, sched="funky"))]
+        if not q:
+            for k in ok:
+                k[1]["arg"] = "thorough"
+        t8, s8 = drive_all(w, gossip_specs(w, ok), mode="orders")
+        # membership changes pending at the anchor: joiners that fast-sync
+        t9, s9 = drive_all(w, gossip_specs(w, [("dynF", dict(traces=3 if q else 8, n=0, steps=330 if q else 500, arg="fastsync"))]), mode="dyn")
+        traces, sums = traces + t8 + t9, sums + s8 + s9
     tvs = w.validate_many(traces, par=6)
     violations, known_hits, drift = judge(w, pid, tvs, known)
     if pid == "C13":
@@ -503,7 +522,7 @@ def ff_family(w, pid, corrupt, what):
         if hasattr(corrupt, "node"):
             corrupt.node = None
         st = selftest(w, "C01" if pid == "C13" else pid, first_segment(traces[0], os.path.join(w.dir, "seg.ndjson")), corrupt, what)
-    tot = {k: sum(s.get("extra", {}).get(k, 0) for s in sums) for k in ("offers", "valid_adopted", "refused", "forged_adopted", "tamperings")}
+    tot = {k: sum(s.get("extra", {}).get(k, 0) or 0 for s in sums if isinstance(s.get("extra", {}).get(k, 0), int)) for k in ("offers", "valid_adopted", "refused", "forged_adopted", "tamperings")}
     if tot["valid_adopted"] < 2:
         raise Infra("vacuous run: valid fast-forward responses were not adopted (%s)" % tot)
     extra = {"selftest": st, "fast_forward_offers": tot,
@@ -522,6 +541,76 @@ def plan_C13(w):
 
 def plan_C14(w):
     return ff_family(w, "C14", ff_corrupt_adopt, "a refused response without trusted signer reported as adopted")
+
+
+def c08_corrupt(d):
+    if d.get("a") == "Rpc" and not d["o"]["panicked"]:
+        d["o"]["panicked"] = True
+        return True
+    return False
+
+
+def c17_corrupt(d):
+    if d.get("a") == "StateRpc" and d["o"]["frozen"]:
+        d["o"]["frozen"] = False
+        return True
+    return False
+
+
+def rpc_kinds(w, q):
+    if q:
+        return [("rpcA", dict(traces=3, n=0, steps=120, arg="all")), ("rpcB", dict(traces=3, n=4, steps=140))]
+    return [("rpc%d" % i, dict(traces=6, n=0, steps=200, arg="all")) for i in range(4)] + [("rpcBd", dict(traces=3, n=4, steps=160, arg="all", store="badger", cache=300))]
+
+
+def plan_C08(w):
+    q = Q(w)
+    known = vlib.load_known()
+    run_mc(w, [("hg1", "MC_hg1.cfg", 4, 300)])
+    traces, sums = drive_all(w, gossip_specs(w, rpc_kinds(w, q)), mode="rpc")
+    tb, sb = drive_all(w, gossip_specs(w, [("bytes", dict())]), mode="bytes")
+    ta, sa = drive_all(w, gossip_specs(w, [("adm", dict(traces=3 if q else 8, n=0, steps=150 if q else 260, arg="all"))]), mode="admit")
+    tf, sf = drive_all(w, gossip_specs(w, [("ffh", dict(traces=2 if q else 6, n=0, steps=200, arg="all"))]), mode="ff")
+    tvs = w.validate_many(traces + tb + ta + tf, par=6)
+    violations, known_hits, drift = judge(w, "C08", tvs, known)
+    st = None
+    if not violations:
+        st = selftest(w, "C08", first_segment(traces[0], os.path.join(w.dir, "seg.ndjson")), c08_corrupt, "a hostile message reported as having crashed the node")
+    tot = {}
+    for s in sums + sb:
+        for k, v in s.get("extra", {}).items():
+            if isinstance(v, int):
+                tot[k] = tot.get(k, 0) + v
+    if tot.get("hostile_messages", 0) < 50 or tot.get("byte_streams", 0) < 50:
+        raise Infra("vacuous run: %s" % tot)
+    extra = {"selftest": st, "totals": tot,
+             "grammar": "SyncRequest (limit, known map, sender), EagerSyncRequest / SyncResponse (every wire-event field: signature encodings, indexes, parents, creators, timestamps, nil/huge transactions, internal transactions with hostile keys and signatures, block signatures), JoinRequest (12 hostile key strings, 11 signature encodings, foreign signer), FastForwardRequest, FastForwardResponse (zero values, null peers/events/roots/cores, short parents, hostile signature-map keys and peer keys), delivered to real Nodes through processRPC / pull / fastForward; 10 framing classes of raw byte streams against the real TCP transport of a running Node (child processes); tampered events through InsertEvent; after every hostile input a valid pull, a valid push and ProcessSigPool must succeed and the delivered/stored blocks be unchanged"}
+    return conclude(w, "C08", sums + sb + sa + sf, violations, known_hits, drift, extra=extra, min_blocks=0,
+                    assumptions=["byte strings are sampled per framing class (10 classes, seeded); the structured grammar is enumerated with -arg all",
+                                 "a panic in an RPC handler is caught by the driver where the real node has no recover: it is what would have killed the process"])
+
+
+def plan_C17(w):
+    q = Q(w)
+    known = vlib.load_known()
+    run_mc(w, [("hg1", "MC_hg1.cfg", 4, 300)])
+    traces, sums = drive_all(w, gossip_specs(w, rpc_kinds(w, q)), mode="rpc")
+    td, sd = drive_all(w, gossip_specs(w, [("dyn", dict(traces=2 if q else 6, n=0, steps=330 if q else 500))]), mode="dyn")
+    tvs = w.validate_many(traces + td, par=6)
+    violations, known_hits, drift = judge(w, "C17", tvs, known)
+    st = None
+    if not violations:
+        st = selftest(w, "C17", first_segment(traces[0], os.path.join(w.dir, "seg.ndjson")), c17_corrupt, "a request to a suspended node reported as having changed its state")
+    tot = {}
+    for s in sums:
+        for k, v in s.get("extra", {}).items():
+            if isinstance(v, int):
+                tot[k] = tot.get(k, 0) + v
+    if tot.get("state_requests", 0) < 20 or tot.get("heartbeats", 0) < 20:
+        raise Infra("vacuous run: %s" % tot)
+    extra = {"selftest": st, "totals": tot,
+             "scenarios": "real Nodes put into Suspended / CatchingUp / Joining / Shutdown; valid Sync (3 shapes), EagerSync, Join and FastForward requests and a submitted transaction in each state: DAG, own events and delivered blocks unchanged, mutating requests refused, a suspended node's sync response equals the difference of its view against the requester's known map truncated to the limit with parents first; heartbeat (checkSuspend) after every exchange in runs with and without quorum: suspended iff undetermined - initial > limit x validators or the node reached its removal round (dyn-mode runs cover the eviction branch)"}
+    return conclude(w, "C17", sums + sd, violations, known_hits, drift, extra=extra, min_blocks=0)
 
 
 def c18_corrupt(d):
@@ -589,6 +678,8 @@ def plan_C19(w):
 
 
 PLANS = {
+    "C08": plan_C08,
+    "C17": plan_C17,
     "C12": plan_C12,
     "C13": plan_C13,
     "C14": plan_C14,
